@@ -136,7 +136,24 @@ func DeepEqual(x, y interface{}) bool {
 		}
 	}
 
+	// binary columns: the image holds []byte, the current row is scanned into a string
+	if bx, ok := bytesOf(typx); ok {
+		if by, ok := bytesOf(typy); ok {
+			return string(bx) == string(by)
+		}
+	}
+
 	return reflect.DeepEqual(typx.Interface(), typy.Interface())
+}
+
+func bytesOf(val reflect.Value) ([]byte, bool) {
+	switch {
+	case val.Kind() == reflect.String:
+		return []byte(val.String()), true
+	case val.Kind() == reflect.Slice && val.Type().Elem().Kind() == reflect.Uint8:
+		return val.Bytes(), true
+	}
+	return nil, false
 }
 
 func parseNumericText(val reflect.Value) (float64, bool) {
